@@ -6,6 +6,7 @@ pub mod prng;
 pub mod irb;
 pub mod irx;
 pub mod typing;
+pub mod miri;
 
 pub mod c01;
 pub mod c02;
